@@ -238,3 +238,31 @@ func Unwrap(v ssa.Value) ssa.Value {
 		}
 	}
 }
+
+// RetVal returns result #i of a Return, looking through the spill that go/ssa introduces for functions with
+// defers (`*t0 = v; rundefers; t1 = *t0; return t1`): if the result is a load from a local whose last store in
+// the same block precedes it, the stored value is returned.
+func RetVal(r *ssa.Return, i int) ssa.Value {
+	v := r.Results[i]
+	ld, ok := v.(*ssa.UnOp)
+	if !ok || ld.Op != token.MUL {
+		return v
+	}
+	al, ok := ld.X.(*ssa.Alloc)
+	if !ok {
+		return v
+	}
+	var last ssa.Value
+	for _, in := range r.Block().Instrs {
+		if in == ssa.Instruction(ld) {
+			break
+		}
+		if st, ok := in.(*ssa.Store); ok && st.Addr == ssa.Value(al) {
+			last = st.Val
+		}
+	}
+	if last != nil {
+		return last
+	}
+	return v
+}
